@@ -8,7 +8,7 @@ import types
 _counter = [0]
 
 
-def check_code(code: str, settings=None, **kwargs):
+def check_code(code: str, settings=None, apply_changes=False, **kwargs):
     """-> list of failures (dicts with lineno, code, description) for the module source `code`"""
     import ast
     from pyanalyze.error_code import ErrorCode, DISABLED_IN_TESTS
@@ -31,7 +31,7 @@ def check_code(code: str, settings=None, **kwargs):
         tree = ast.parse(code)
         v = NameCheckVisitor(mod.__file__, code, tree, module=mod, **kw)
         try:
-            res = v.check_for_test() if hasattr(v, "check_for_test") else v.check()
+            res = v.check_for_test(apply_changes=apply_changes)
         finally:
             sys.modules.pop(mod.__name__, None)
     return res
